@@ -33,7 +33,7 @@ class RealLife:
 
     def gen(self, seed, index, tier):
         rng = runner.rng_for(seed, self.name, index)
-        project = layouts.gen_project(rng, mode="plain", allow_mixed=True, vcs="none", allow_odd_paths=False,
+        project = layouts.gen_project(rng, mode="plain", allow_mixed=True, vcs="none", allow_odd_paths=False, allow_symlinks=False,
                                       allow_glob=True, max_files=3)
         project["cfg"].update({"commit": True, "tag": True, "push": rng.random() < 0.6})
         project["vcs"] = None
